@@ -2,7 +2,8 @@
 """Write seeded/<id>/meta.json from a table (id -> [property, change, needs]) and confirm.json."""
 import json, os, sys
 tab = json.load(open(sys.argv[1]))
-for sid, (prop, change, needs) in tab.items():
+for sid, ent in tab.items():
+    prop, change, needs = ent[:3]
     d = "/verif/seeded/%s" % sid
     if not os.path.exists(os.path.join(d, "confirm.json")):
         print("no confirm.json for", sid); continue
